@@ -200,4 +200,19 @@ PROPS = {
         "assumptions": [],
         "design_ref": "DESIGN.md §3.15, §4 C03",
     },
+    "C06": {
+        "rules": ["FWDTHREAD", "FWDHELPERS", "FWDPRESENT", "FWDWALK"],
+        "thorough": [],
+        "technique": "static analysis: abstract interpretation of every rewrite with a type system over tree epochs (cursor/forwarder/tree, relative to the current tree); metavariable patterns for the shared multi-edit helpers and the provenance walk",
+        "level_text": "Structural clauses, decided on every path of every editing function: each elementary edit acts on a cursor into the *current* tree (never a stale one), each edit's "
+        "forwarder is composed exactly in order (newest first) into the accumulated forwarder, nothing is discarded, and what is returned is the last tree with a forwarder from the "
+        "original to that tree; rewriter objects keep self.fwd/self.ir in step on every exit; the three multi-edit helpers and _compose have the required shape; every recorded derivation "
+        "carries a forwarder (three listed legacy constructors fall back to one that raises); Procedure.forward composes the chain oldest-first and cursor arguments are forwarded "
+        "implicitly through it. Does not decide the index arithmetic inside _forward_insert/_replace/_wrap/_move.",
+        "level_note": "Epoch typing gives no verdict for values it cannot type (TOP); the share of typed edit receivers is reported and must stay above 55 %. Helper summaries for "
+        "_replace_reads/_writes/_pats are justified by FWDHELPERS.",
+        "explanation": "FWDTHREAD: flow-sensitive typing Cursor(e)/IR(e)/Fwd(a->b) with epochs ORIG | age k; edit requires current receiver, ages all epochs; _compose requires matching middle epoch; returns must be (IR(current), Fwd(ORIG->current)).",
+        "assumptions": ["edit API names _replace/_insert/_delete/_move/_wrap", "cursor navigation preserves the epoch"],
+        "design_ref": "DESIGN.md §3.12, §4 C06",
+    },
 }
